@@ -31,7 +31,7 @@ COMPONENTS = {
                                           'restart -> Bundle.unbundle in a fresh SimLoop'],
 }
 ASSUMPTIONS = ['step arguments are picklable / YAML-able JSON-like values', 'steps depend only on their arguments']
-EXPECTED_COUNTERS = ['probe:continue_with_kwargs', 'probe:wait_resumed_with_value', 'probe:restore_before_continuation',
+EXPECTED_COUNTERS = ['probe:restore_from_exit_phase', 'probe:restore_from_paused_notification', 'probe:instance_ran_on_after_checkpoint', 'probe:argument_with_identity', 'probe:continue_with_kwargs', 'probe:wait_resumed_with_value', 'probe:restore_before_continuation',
                      'probe:restore_in_waiting', 'probe:double_restore', 'medium:deepcopy', 'medium:pickle', 'medium:yaml']
 PROGRAM_CFG = {
     'max_steps': 5,
